@@ -76,7 +76,13 @@ func (p *Peers) Collect() (*WebRTCPeer, error) {
 	verifhook.Point("client.peers.collect.before-handover", p)
 	// Track new valid Snowflake in internal collection and pass along.
 	p.activePeers.PushBack(connection)
-	p.snowflakeChan <- connection
+	select {
+	case p.snowflakeChan <- connection:
+	case <-p.melt:
+		// The channel can be full of snowflakes that closed while waiting in
+		// it. Do not keep End waiting for a Pop that may never come; End
+		// closes this snowflake together with the other active ones.
+	}
 	return connection, nil
 }
 
